@@ -84,18 +84,16 @@ func newHTTPRouteStatusSetter(status gatewayv1.HTTPRouteStatus, gatewayCtlrName 
 	return func(object client.Object) (wasSet bool) {
 		hr := helpers.MustCastObject[*gatewayv1.HTTPRoute](object)
 
-		// keep all the parent statuses that belong to other controllers
-		for _, os := range hr.Status.Parents {
-			if string(os.ControllerName) != gatewayCtlrName {
-				status.Parents = append(status.Parents, os)
-			}
-		}
+		// The setter can be invoked more than once (the status update is retried), so it must not modify the
+		// captured status: the merged status is built from a copy.
+		newStatus := status
+		newStatus.Parents = mergeRouteParentStatuses(status.Parents, hr.Status.Parents, gatewayCtlrName)
 
-		if routeStatusEqual(gatewayCtlrName, hr.Status.Parents, status.Parents) {
+		if routeStatusEqual(gatewayCtlrName, hr.Status.Parents, newStatus.Parents) {
 			return false
 		}
 
-		hr.Status = status
+		hr.Status = newStatus
 
 		return true
 	}
@@ -105,18 +103,16 @@ func newTLSRouteStatusSetter(status v1alpha2.TLSRouteStatus, gatewayCtlrName str
 	return func(object client.Object) (wasSet bool) {
 		tr := helpers.MustCastObject[*v1alpha2.TLSRoute](object)
 
-		// keep all the parent statuses that belong to other controllers
-		for _, os := range tr.Status.Parents {
-			if string(os.ControllerName) != gatewayCtlrName {
-				status.Parents = append(status.Parents, os)
-			}
-		}
+		// The setter can be invoked more than once (the status update is retried), so it must not modify the
+		// captured status: the merged status is built from a copy.
+		newStatus := status
+		newStatus.Parents = mergeRouteParentStatuses(status.Parents, tr.Status.Parents, gatewayCtlrName)
 
-		if routeStatusEqual(gatewayCtlrName, tr.Status.Parents, status.Parents) {
+		if routeStatusEqual(gatewayCtlrName, tr.Status.Parents, newStatus.Parents) {
 			return false
 		}
 
-		tr.Status = status
+		tr.Status = newStatus
 
 		return true
 	}
@@ -126,21 +122,38 @@ func newGRPCRouteStatusSetter(status gatewayv1.GRPCRouteStatus, gatewayCtlrName 
 	return func(object client.Object) (wasSet bool) {
 		gr := helpers.MustCastObject[*gatewayv1.GRPCRoute](object)
 
-		// keep all the parent statuses that belong to other controllers
-		for _, os := range gr.Status.Parents {
-			if string(os.ControllerName) != gatewayCtlrName {
-				status.Parents = append(status.Parents, os)
-			}
-		}
+		// The setter can be invoked more than once (the status update is retried), so it must not modify the
+		// captured status: the merged status is built from a copy.
+		newStatus := status
+		newStatus.Parents = mergeRouteParentStatuses(status.Parents, gr.Status.Parents, gatewayCtlrName)
 
-		if routeStatusEqual(gatewayCtlrName, gr.Status.Parents, status.Parents) {
+		if routeStatusEqual(gatewayCtlrName, gr.Status.Parents, newStatus.Parents) {
 			return false
 		}
 
-		gr.Status = status
+		gr.Status = newStatus
 
 		return true
 	}
+}
+
+// mergeRouteParentStatuses returns a new slice that holds our parent statuses followed by the parent statuses
+// of prevParents that belong to other controllers.
+func mergeRouteParentStatuses(
+	ourParents, prevParents []gatewayv1.RouteParentStatus,
+	gatewayCtlrName string,
+) []gatewayv1.RouteParentStatus {
+	parents := make([]gatewayv1.RouteParentStatus, 0, len(ourParents)+len(prevParents))
+	parents = append(parents, ourParents...)
+
+	// keep all the parent statuses that belong to other controllers
+	for _, os := range prevParents {
+		if string(os.ControllerName) != gatewayCtlrName {
+			parents = append(parents, os)
+		}
+	}
+
+	return parents
 }
 
 func routeStatusEqual(gatewayCtlrName string, prevParents, curParents []gatewayv1.RouteParentStatus) bool {
@@ -232,13 +245,16 @@ func newBackendTLSPolicyStatusSetter(
 		}
 
 		ancestors = append(ancestors, status.Ancestors...)
-		status.Ancestors = ancestors
 
-		if policyStatusEqual(gatewayCtlrName, btp.Status, status) {
+		// The setter can be invoked more than once (the status update is retried), so it must not modify the
+		// captured status.
+		newStatus := v1alpha2.PolicyStatus{Ancestors: ancestors}
+
+		if policyStatusEqual(gatewayCtlrName, btp.Status, newStatus) {
 			return false
 		}
 
-		btp.Status = status
+		btp.Status = newStatus
 		return true
 	}
 }
@@ -264,13 +280,16 @@ func newNGFPolicyStatusSetter(
 		}
 
 		ancestors = append(ancestors, status.Ancestors...)
-		status.Ancestors = ancestors
 
-		if policyStatusEqual(gatewayCtlrName, prevStatus, status) {
+		// The setter can be invoked more than once (the status update is retried), so it must not modify the
+		// captured status.
+		newStatus := v1alpha2.PolicyStatus{Ancestors: ancestors}
+
+		if policyStatusEqual(gatewayCtlrName, prevStatus, newStatus) {
 			return false
 		}
 
-		policy.SetPolicyStatus(status)
+		policy.SetPolicyStatus(newStatus)
 		return true
 	}
 }
@@ -353,13 +372,16 @@ func newSnippetsFilterStatusSetter(
 		}
 
 		controllerStatuses = append(controllerStatuses, snippetsFilterStatus.Controllers...)
-		snippetsFilterStatus.Controllers = controllerStatuses
 
-		if snippetsFilterStatusEqual(gatewayCtlrName, snippetsFilterStatus.Controllers, sf.Status.Controllers) {
+		// The setter can be invoked more than once (the status update is retried), so it must not modify the
+		// captured status.
+		newStatus := ngfAPI.SnippetsFilterStatus{Controllers: controllerStatuses}
+
+		if snippetsFilterStatusEqual(gatewayCtlrName, newStatus.Controllers, sf.Status.Controllers) {
 			return false
 		}
 
-		sf.Status = snippetsFilterStatus
+		sf.Status = newStatus
 		return true
 	}
 }
